@@ -501,6 +501,107 @@ def h_oct_text(ctx):
     return Outcome(f"{'warned' if flagged else ('refused' if not r.ok else 'SILENT')}", vs, nontrivial=(kind, name, route))
 
 
+# ------------------------------------------------------------------ E2: one key object used for one operation after another
+KEY_MODELS = [("oct16", True, "ops-verify"), ("oct16", True, "ops-sign"), ("oct16", True, "ops-wrapKey"), ("oct16", True, "ops-deriveKey"),
+              ("oct16", True, "use-sig"), ("oct16", True, "use-enc"), ("rsa", False, "ops-verify"), ("rsa", True, "ops-sign"), ("rsa", True, "ops-decrypt"),
+              ("rsa", True, "use-sig"), ("P-256", True, "ops-sign"), ("P-256", False, "ops-verify"), ("P-256", True, "ops-derive"), ("P-256", True, "use-enc")]
+OPS_FOR = {
+    "oct": [("HS256", None, "sign"), ("HS256", None, "verify"), ("A128KW", "A128GCM", "encrypt"), ("A128KW", "A128GCM", "decrypt"),
+            ("A128GCMKW", "A128GCM", "encrypt"), ("A128GCMKW", "A128GCM", "decrypt"), ("PBES2-HS256+A128KW", "A128GCM", "encrypt"),
+            ("PBES2-HS256+A128KW", "A128GCM", "decrypt"), ("dir", "A128GCM", "encrypt"), ("dir", "A128GCM", "decrypt")],
+    "RSA": [("RS256", None, "sign"), ("RS256", None, "verify"), ("PS256", None, "verify"), ("RSA-OAEP", "A128GCM", "encrypt"),
+            ("RSA-OAEP", "A128GCM", "decrypt"), ("RSA1_5", "A128GCM", "encrypt"), ("RSA-OAEP-256", "A128GCM", "decrypt")],
+    "EC": [("ES256", None, "sign"), ("ES256", None, "verify"), ("ECDH-ES", "A128GCM", "encrypt"), ("ECDH-ES", "A128GCM", "decrypt"),
+           ("ECDH-ES+A128KW", "A128GCM", "encrypt"), ("ECDH-ES+A128KW", "A128GCM", "decrypt")],
+}
+
+
+class KeyOverTime:
+    """The same Key object (declaring use / key_ops) is handed to one operation after another; each verdict must be the verdict a
+    fresh object of the same key gets, and a success needs a suitable key."""
+    fresh_import = False
+
+    def __init__(self, kind, private, dname, via):
+        self.kind, self.private, self.dname, self.via = kind, private, dname, via
+        self.decl = dict(DECL)[dname]
+        self.jwk = kind_jwk(kind)
+        self.MENU = OPS_FOR[self.jwk["kty"]] + [("in-a-key-set:" + a, e, o) for a, e, o in OPS_FOR[self.jwk["kty"]][:4]]
+        self.replay_id = {"cls": "KeyOverTime", "kind": kind, "private": private, "dname": dname, "via": via}
+        self._base = {}
+
+    def make(self):
+        src = self.jwk if self.private else rjwk.public_of(self.jwk)
+        if self.via == "jwk-members":
+            key = A.jkey({**src, **copy.deepcopy(self.decl)}, "dict")
+        else:
+            key = A.jkey(dict(src), "pem" if self.jwk["kty"] != "oct" else "bytes", self.private, copy.deepcopy(self.decl))
+        from joserfc.jwk import KeySet
+        return {"key": key, "set": KeySet([key])}
+
+    def apply(self, st, op):
+        from joserfc import jws, jwe
+        alg, enc, what = op
+        key = st["key"]
+        if alg.startswith("in-a-key-set:"):
+            alg = alg.split(":", 1)[1]
+            key = st["set"]
+        if what == "sign":
+            r = call(jws.serialize_compact, {"alg": alg}, b"payload", key, algorithms=[alg])
+        elif what == "verify":
+            seg = b64.enc(rjws.hdr_json({"alg": alg}).encode())
+            sig = careless_sign(alg, self.jwk, rjws.signing_input(seg, b"payload", True)) or b"\0" * 32
+            r = call(jws.deserialize_compact, seg + "." + b64.enc(b"payload") + "." + b64.enc(sig), key, algorithms=[alg])
+        elif what == "encrypt":
+            r = call(jwe.encrypt_compact, {"alg": alg, "enc": enc}, b"plaintext", key, algorithms=[alg, enc])
+        else:
+            tok = careless_jwe(alg, enc, self.jwk, None, b"plaintext") or c16.jwe_wire(c16.jwe_seed(alg, scen.jwe_key_kinds(alg, enc)[0], enc, "compact"), "compact")
+            r = call(jwe.decrypt_compact, tok, key, algorithms=[alg, enc])
+        return ("ok",) if r.ok else ("rej", type(r.exc).__name__)
+
+    def canon(self, st):
+        from ..history import canon_state
+        return (self.kind, self.private, self.dname, self.via, canon_state(st["key"], st["set"], prefix="joserfc.no-module-state"))
+
+    def bucket(self, obs):
+        return ":".join(obs)
+
+    def baseline(self, op):
+        if op not in self._base:
+            self._base[op] = self.apply(self.make(), op)
+        return self._base[op]
+
+    def check(self, hist, op, obs, st):
+        alg, enc, what = op
+        a = alg.split(":", 1)[1] if alg.startswith("in-a-key-set:") else alg
+        vs = []
+        why = suitable(a, enc or "A128GCM", self.jwk, self.decl, what, self.private)
+        desc = f"{self.kind} key ({'private' if self.private else 'public'}) declaring {self.decl} via {self.via}: after {list(hist)} the call {op}"
+        if obs[0] == "ok" and why:
+            vs.append(viol(f"an operation succeeds with an unsuitable key after the key was used for other operations [{'declared key_ops lack the operation' if why[0].startswith('declared key_ops') else why[0]}]", f"{desc}: {why}"))
+        base = self.baseline(op)
+        if obs != base:
+            vs.append(viol("the verdict on a key depends on what the key object was used for before", f"{desc} gives {obs}, a fresh object of the same key gives {base}"))
+        return vs
+
+
+def make_model(desc):
+    return KeyOverTime(desc["kind"], desc["private"], desc["dname"], desc["via"])
+
+
+def key_histories(tier):
+    from ..history import bfs
+    from ..explorer import Stats
+    total = Stats()
+    extra = {}
+    for kind, private, dname in KEY_MODELS:
+        for via in ("jwk-members", "native+parameters"):
+            st = bfs(KeyOverTime(kind, private, dname, via), 3 if tier == "thorough" else 2, budget_s=300)
+            extra[f"{kind}/{'priv' if private else 'pub'}/{dname}/{via}"] = st.extra
+            total.merge(st)
+    total.extra = {"per_key": extra}
+    return total
+
+
 _pc = Part("mac-confusion", h_confusion, split_depth=2)
 _pc.single_bucket_ok = True
 _po = Part("oct-from-key-text", h_oct_text, split_depth=2)
@@ -509,5 +610,6 @@ PARTS = [
     Part("jws-keys", h_jws, split_depth=3, budget={"quick": 120, "thorough": 1800}),
     Part("jwe-keys", h_jwe, split_depth=3, budget={"quick": 150, "thorough": 2400}),
     Part("ecdh-cross-curve", h_ecdh_cross, split_depth=2),
+    Part("one-key-over-time", custom=key_histories, engine="E2"),
     _pc, _po,
 ]
